@@ -263,6 +263,85 @@ def gen_program(rng, i):
                 mode2D=False)
 
 
+def gen_visrand(rng, i):
+    """visibility pruning with an observer whose pose is RANDOM (position in a small region / coordinate ranges, random
+    yaw / pitch, restricted view angles, camera offsets): its view region needs sampling, so pruneVisibility buffers the
+    bounding box of the view region (the pitch >= 1 fast path of _bufferOverapproximate) instead of voxels.  Observed
+    objects are elongated / flat / tall boxes with their own (random) yaw, the view distance is small compared to them,
+    and all visibility forms occur: requireVisible, `visible`, `visible from ego`, `visible from <non-ego observer>`."""
+    L = []
+    ws3d = rng.random() < 0.2
+    sx, sy = rng.choice([10, 16, 24]), rng.choice([8, 12])
+    if ws3d:
+        L.append(f"workspace = Workspace(BoxRegion(dimensions=({sx}, {sy}, 8)))")
+    else:
+        L.append(f"workspace = Workspace(RectangularRegion(0@0, 0, {sx}, {sy}))")
+    vd = rng.choice([1, 1, 1.5, 2, 3, 5])
+    va = rng.choice([None, None, None, "(120 deg, 90 deg)", "(60 deg, 40 deg)", "(200 deg, 180 deg)", "(360 deg, 50 deg)"])
+    cam = rng.choice([None, None, None, "(0.5, 0, 0)", "(0, 1, 0.5)", "(-1, -0.5, 0)"])
+    cx, cy = rng.choice([0, 0, -2, 3]), rng.choice([0, 0, 1.5, -2])
+    a, b = rng.choice([0.5, 2, 2, 4]), rng.choice([0.5, 2, 3])
+    place = rng.choice(["spot", "spot", "ranges", "fixedpos", "xrange"])
+    if place == "spot":
+        L.append(f"spot = RectangularRegion({cx}@{cy}, {rng.choice([0, 0, 0.6])}, {a}, {b})")
+        where = "in spot"
+    elif place == "ranges":
+        where = f"at (Range({cx - a / 2}, {cx + a / 2}), Range({cy - b / 2}, {cy + b / 2}), {'Range(-1, 1)' if ws3d else 0})"
+    elif place == "xrange":
+        where = f"at (Range({cx - a}, {cx + a}), {cy}, 0)"
+    else:
+        where = f"at ({cx}, {cy}, 0)"
+    yaw = rng.choice(["", "", ", facing Range(-180, 180) deg", ", with yaw Range(0, 90) deg", ", facing 45 deg"])
+    if place == "fixedpos" and "Range" not in yaw:
+        yaw = ", facing Range(-180, 180) deg"     # the pose must stay random
+    tilt = rng.choice(["", "", "", ", with pitch Range(-30, 30) deg", ", with roll Range(0, 45) deg"])
+    if tilt:
+        yaw = yaw.replace("facing", "with yaw")      # `facing` already fixes pitch and roll
+    observer = (f"new Object {where}{yaw}{tilt}, with visibleDistance {vd}, with allowCollisions True"
+                + (f", with viewAngles {va}" if va else "") + (f", with cameraOffset {cam}" if cam else "")
+                + f", with width {rng.choice([1, 1, 0.4])}, with length {rng.choice([1, 2])}")
+    spec = rng.choice(["with requireVisible True", "with requireVisible True", "visible", "visible from ego", "visible from obs"])
+    if spec == "visible from obs":
+        L.append(f"ego = new Object at ({sx / 2 - 1}, {sy / 2 - 1}, 0), with allowCollisions True, with visibleDistance 2")
+        L.append("obs = " + observer)
+    else:
+        L.append("ego = " + observer)
+    dims = rng.choice([(6, 1, 1), (6, 1, 1), (1, 6, 1), (1, 1, 1), (4, 4, 0.5), (0.5, 0.5, 5), (3, 1, 2), (2, 2, 2), (8, 0.5, 0.5)])
+    oyaw = rng.choice(["", "", ", facing Range(0, 360) deg", ", facing 90 deg", ", with yaw Range(-45, 45) deg"])
+    # where the observed object is sampled: mostly a zone around the observer just beyond the reach of its view region plus half
+    # the object's longest side (so that most candidate scenes are near the boundary of the visible set), sometimes everywhere
+    reach = max(a, b) / 2 + vd + max(dims) / 2 + 1.5
+    zoned = rng.random() < 0.85
+    if zoned:
+        zone = (f"BoxRegion(position=({cx}, {cy}, 0), dimensions=({2 * reach}, {2 * reach}, {min(8, 2 * reach)}))" if ws3d
+                else f"RectangularRegion({cx}@{cy}, 0, {2 * reach}, {2 * reach})")
+        L.append(f"zone = {zone}")
+        how = rng.choice(["in zone", "in zone", "on zone"]) if not ws3d else "in zone"
+    else:
+        how = rng.choice(["in workspace", "in workspace", "on workspace"]) if not ws3d else "in workspace"
+    L.append(f"foo = new Object {how}, with width {dims[0]}, with length {dims[1]}, with height {dims[2]}{oyaw}, "
+             f"with allowCollisions True, {spec}")
+    if zoned and rng.random() < 0.2:        # a second observed object, sized by a distribution
+        L.append(f"bar = new Object {how.replace('on ', 'in ')}, with width Range(0.5, 3), with length {rng.choice([1, 5])}, with height 1, "
+                 f"with allowCollisions True, {spec}")
+    meta = dict(template="visrand", spec=spec, vd=vd, dims=list(dims), place=place, viewAngles=va, cameraOffset=cam, ws3d=ws3d, how=how)
+    return dict(id=f"v{i}", src="\n".join(L) + "\n", seed=rng.randint(0, 10 ** 6), meta=meta, mode2D=False, maxIterations=300, nscenes=40, budget=12)
+
+
+def gen_bufbox(rng, i):
+    """a mesh volume region anywhere in space (boxes and non-box meshes, off-origin, rotated, centred or not) and a
+    buffer: input of the pitch >= 1 path of _bufferOverapproximate."""
+    shape = rng.choice(["boxregion", "boxregion", "spheroid", "cone", "cylinder", "icosphere", "capsule", "annulus", "box"])
+    r = lambda: rng.choice([0.3, 0.5, 1, 1.5, 2, 3.25, 6, 10])
+    args = {"boxregion": [r(), r(), r()], "spheroid": [r(), r(), r()], "box": [r(), r(), r()], "cone": [r(), r()], "cylinder": [r(), r()],
+            "icosphere": [r()], "capsule": [r(), r()], "annulus": [r(), r(), r()]}[shape]
+    pos = [0, 0, 0] if rng.random() < 0.2 else [round(rng.uniform(-20, 20), 3) for _ in range(3)]
+    rot = [0, 0, 0] if rng.random() < 0.3 else [round(rng.uniform(-3.1, 3.1), 3) for _ in range(3)]
+    return dict(kind="bufbox", id=f"b{i}", shape=shape, args=args, position=pos, rotation=rot, center=rng.random() < 0.7,
+                buffer=rng.choice([0, 0.05, 0.37, 0.5, 1, 1, 2.5, 4, 10, round(rng.uniform(0.1, 8), 3)]),
+                pitch=rng.choice([1, 1, 1, 1.0, 2, 1.5]), probe_seed=rng.randint(0, 10 ** 6), nprobe=12)
+
+
 def gen_maxdist(rng, i):
     """three objects with their own visibleDistance / cameraOffset / size, requireVisible flags, `visible from`
     links in any direction and distance requirements: which object's visibleDistance, camera offset and radius enter
@@ -349,7 +428,11 @@ def main():
                      "pitch x flat/tall box; mesh-volume workspaces) plus generated programs (2D containment with random sizes/orientations/offsets, "
                      "visibility specifiers, relative-heading and distance requirements on polygonal fields) compiled with pruning "
                      "off/on (2D containment with roll / pitch / height as constants and distributions, rh programs with per-object "
-                     "visibleDistance and sizes, cell gaps and three observer relations, mesh-volume containers); a case is non-trivial when the matcher returns a bound / a position was conditioned and unpruned "
+                     "visibleDistance and sizes, cell gaps and three observer relations, mesh-volume containers; visibility programs whose observer has a RANDOM "
+                     "pose - position in a small region / coordinate ranges, random yaw / pitch / roll, view angles, camera offsets - with elongated / flat / tall "
+                     "observed boxes, visibleDistance 1-5, requireVisible / visible / visible from ego / visible from a non-ego observer: random pruned regions are "
+                     "evaluated at the property values of each accepted unpruned scene); the bounding-box fast path of _bufferOverapproximate on random mesh "
+                     "regions (boxes, spheroids, cones, cylinders, icospheres, capsules, annuli; off-origin, rotated) vs the extracted buffer_box; a case is non-trivial when the matcher returns a bound / a position was conditioned and unpruned "
                      "scenes were checked against the pruned region")
     common.ensure_parser()
     if not c.proofs():
@@ -363,6 +446,10 @@ def main():
     nprog = 50 if quick else 1500
     nmd = 60 if quick else 1200
     nscenes = 50 if quick else 200
+    nbb = 80 if quick else 1500
+    nvr = 16 if quick else 200
+    import random as _random
+    rng3 = _random.Random(f"{PID}-round3-{c.seed}")     # separate stream (seeded from VERIF_SEED): earlier generators keep their cases
 
     # ================= H-a: matcher
     mcases = []
@@ -447,10 +534,25 @@ def main():
     for _ in range(niter):
         fcases.append(dict(kind="iters", dims=[rng.choice([0.2, 0.4, 1, 2, 5]) for _ in range(3)],
                            pitch=rng.choice([0.1, 0.25, 0.5, 0.05]), amount=rng.choice([0.3, 1, 2.5, 4])))
+    # directed: the unit box at the origin, an off-origin rotated box, zero buffer
+    fcases.append(dict(kind="bufbox", id="bd0", shape="boxregion", args=[1, 1, 1], position=[0, 0, 0], rotation=[0, 0, 0], buffer=1,
+                       pitch=1, probe_seed=1, nprobe=12))
+    fcases.append(dict(kind="bufbox", id="bd1", shape="boxregion", args=[6, 1, 1], position=[5, -3, 2], rotation=[0.7, 0.2, -0.4], buffer=3.2,
+                       pitch=1, probe_seed=2, nprobe=12))
+    fcases.append(dict(kind="bufbox", id="bd2", shape="cone", args=[2, 5], position=[-4, 0, 9], rotation=[1, 2, 3], center=False, buffer=0,
+                       pitch=2, probe_seed=3, nprobe=12))
+    for i in range(nbb):
+        fcases.append(gen_bufbox(rng3, i))
     fres = common.run_impl("impl_c08.py", dict(kind="funcs", cases=fcases), timeout=3000)["results"]
     lines = []
     for cs, r in zip(fcases, fres):
-        if cs["kind"] == "rh":
+        if cs["kind"] == "bufbox":
+            if isinstance(r, dict) and "bounds" in r:
+                lo, hi = r["bounds"]
+                lines.append(f"BB {qt(cs['buffer'])} 3 " + " ".join(f"{qt(fq(a))} {qt(fq(b))}" for a, b in zip(lo, hi)))
+            else:
+                lines.append(f"BB {qt(cs['buffer'])} 0")
+        elif cs["kind"] == "rh":
             lines.append("RH " + qt(PI) + " " + " ".join(qt(x) for x in cs["args"]))
         else:
             h = fq(r.get("h")) if isinstance(r, dict) and r.get("h") else Fraction(1)
@@ -467,7 +569,38 @@ def main():
             a += math.tau
         return a
     for cs, r in zip(fcases, fres):
-        if cs["kind"] == "rh":
+        if cs["kind"] == "bufbox":
+            m = fout[li]; li += 1
+            c.count(("bufbox", cs["id"], cs["shape"], tuple(cs["args"]), tuple(cs["position"]), tuple(cs["rotation"]), cs["buffer"]),
+                    nontrivial=cs["buffer"] > 0)
+            c.hist("bufbox:" + cs["shape"])
+            rep = dict(case=cs, impl=r, model=m, which="_bufferOverapproximate fast path (pitch >= 1)")
+            if not isinstance(r, dict) or "exc" in r:
+                c.violation("buffer-box-raises", "_bufferOverapproximate(minBuffer, pitch >= 1) raises on a mesh volume region", rep)
+                continue
+            c.cov["traces_validated_against_impl"] += 1
+            mm = [pq(x) for x in m.split()]
+            mpos, mdim = mm[0::2], mm[1::2]
+            b = Fraction(cs["buffer"])
+            lo, hi = [[fq(x) for x in row] for row in r["bounds"]]
+            tol = Fraction(1, 10 ** 7) * max([1] + [abs(x) for x in lo + hi] + [b])
+            if r.get("cls") != "BoxRegion" or "position" not in r or len(mpos) != 3:
+                c.violation("correspondence", "the fast path of _bufferOverapproximate does not return a BoxRegion", rep)
+                continue
+            ipos, idim = [fq(x) for x in r["position"]], [fq(x) for x in r["dimensions"]]
+            if any(abs(a - bb) > tol for a, bb in zip(ipos + idim, mpos + mdim)):
+                c.violation("correspondence", "the BoxRegion returned by _bufferOverapproximate(minBuffer, pitch >= 1) differs from the "
+                            "model (position = midpoint of the mesh bounds, dimensions = extents + 2 minBuffer)",
+                            dict(rep, model_position=[float(x) for x in mpos], model_dimensions=[float(x) for x in mdim],
+                                 impl_position=[float(x) for x in ipos], impl_dimensions=[float(x) for x in idim]))
+            # property oracle, independent of the model: every face at least minBuffer outside the mesh bounds, and points
+            # within minBuffer of the mesh are inside the returned region
+            rlo, rhi = [[fq(x) for x in row] for row in r["res_bounds"]]
+            short = [ax for ax in range(3) if rlo[ax] > lo[ax] - b + tol or rhi[ax] < hi[ax] + b - tol]
+            if short or r.get("probes_outside"):
+                c.violation("buffer-box-insufficient", "the region returned by _bufferOverapproximate(minBuffer, pitch >= 1) does not contain "
+                            "every point within minBuffer of the mesh", dict(rep, short_axes=short, probes_outside=r.get("probes_outside")))
+        elif cs["kind"] == "rh":
             m = fout[li]; li += 1
             c.count(("rh", tuple(cs["args"])), nontrivial=True)
             ml, mu = [pq(x) for x in m.split()]
@@ -549,15 +682,16 @@ def main():
 
     # ================= H-b: pruned vs unpruned
     progs = [gen_directed(i, i) for i in range(10)] + [gen_program(rng, 10 + i) for i in range(nprog)]
+    progs += [gen_visrand(rng3, i) for i in range(nvr)]
     for p in progs:
-        p["nscenes"] = nscenes
-        p["budget"] = 20 if quick else 60
+        p.setdefault("nscenes", nscenes)
+        p.setdefault("budget", 20 if quick else 60)
     if c.replay:
         body = json.load(open(c.replay))
         pc = body.get("case", {}).get("program")
         if pc:
             progs = [pc]
-    nw = min(8, common.NCPU)
+    nw = max(1, min(8, common.NCPU, int(os.environ.get("VERIF_WORKERS", "8"))))
     chunks = [progs[i::nw] for i in range(nw)]
     chunks = [ch for ch in chunks if ch]
     results = {}
@@ -594,6 +728,11 @@ def main():
         c.count((p["src"],), nontrivial=conditioned and checked > 0, n=max(1, checked))
         c.cov["traces_validated_against_impl"] += checked
         c.hist("conditioned" if conditioned else "not-conditioned")
+        if any(o.get("substituted") and o.get("checked") for o in r["objects"]):
+            c.hist("random-pruned-region-evaluated-at-scene:" + meta["template"])
+        for o in r["objects"]:
+            if o.get("contains_error"):
+                c.hist("contains-error:" + o["contains_error"].split(":")[0])
         if any(o.get("outside") for o in r["objects"]):
             c.violation("pruned-region-excludes-feasible", "a scene accepted without pruning has an object position outside the pruned sampling region",
                         dict(rep, outside=r["outside"], counts=[[o.get("outside"), o.get("checked")] for o in r["objects"]]))
